@@ -143,8 +143,11 @@ def run(chk, only=None):
             offsets = sorted(set().union(*[set(s["offsets"]) for s in summ]))
             containers = sorted(set().union(*[set(s["containers"]) for s in summ]))
             chk.extra["covered"] = dict(widths=len(widths), offsets=len(offsets), containers=containers)
-            if {"rt", "gen"} & set(out) and (widths != list(range(1, 65)) or offsets != list(range(0, 64))
-                                             or containers != list(range(8, 65, 8))):
+            dev = os.environ.get("VERIF_DEV_SCALAR_TYPES") or os.environ.get("VERIF_DEV_GEN_LIMIT")
+            if dev:
+                chk.extra["dev_filter"] = "development filter active (%s): coverage not enforced" % dev
+            if not dev and (widths != list(range(1, 65)) or offsets != list(range(0, 64))
+                            or containers != list(range(8, 65, 8))):
                 raise MachineryError("placement coverage incomplete: widths=%s offsets=%s containers=%s" % (
                     widths, offsets, containers))
             scalar_check.report(chk, mism)
